@@ -1713,7 +1713,7 @@ def match_note_arrays(
                 candidate_notes = target_note_array[taix_to_consider]
 
                 if check_duration:
-                    best_candidate_idx = (
+                    best_candidate_idx = abs(
                         candidate_notes[duration_key]
                         - input_note_array[inix][duration_key]
                     ).argmin()
